@@ -258,7 +258,7 @@ def strip_suffix(v):
 
 
 class Path:
-    __slots__ = ('blocks', 'conds', 'events', 'outcome', 'ret_site', 'kind', 'event_args', 'field_stores')
+    __slots__ = ('blocks', 'conds', 'events', 'outcome', 'ret_site', 'kind', 'event_args', 'field_stores', 'env', 'body')
 
     def __init__(self):
         self.blocks = []
@@ -269,6 +269,16 @@ class Path:
         self.kind = 'return'
         self.event_args = {}
         self.field_stores = {}
+        self.env = None
+        self.body = None
+
+    def local_value(self, local):
+        """Path-specific description of the value a local holds at the end of the path (None if never assigned on it)."""
+        if self.env is None or ('def', local) not in self.env:
+            return None
+        site, st = self.env[('def', local)]
+        o = self.body._origin_of_def(site, st, 0)
+        return describe(refine(self.body, o, self.env))
 
     def cond_map(self):
         m = {}
@@ -324,6 +334,8 @@ def enumerate_paths(body, facts=None, start=0, max_paths=50000, stop_calls=None,
             p.events = events
             p.event_args = env.get('__args__', {})
             p.field_stores = env.get('__fa__', {})
+            p.env = env
+            p.body = body
             p.kind = 'loop'
             p.outcome = 'LOOP'
             out.append(p)
@@ -371,6 +383,8 @@ def enumerate_paths(body, facts=None, start=0, max_paths=50000, stop_calls=None,
             p.events = events
             p.event_args = env.get('__args__', {})
             p.field_stores = env.get('__fa__', {})
+            p.env = env
+            p.body = body
             p.ret_site = last0
             if last0 is not None:
                 if last0.is_term:
@@ -408,6 +422,8 @@ def enumerate_paths(body, facts=None, start=0, max_paths=50000, stop_calls=None,
                 p.events = events
                 p.event_args = env.get('__args__', {})
                 p.field_stores = env.get('__fa__', {})
+                p.env = env
+                p.body = body
                 p.kind = 'stop'
                 p.outcome = 'call:' + short(callee_name(t))
                 out.append(p)
@@ -422,6 +438,8 @@ def enumerate_paths(body, facts=None, start=0, max_paths=50000, stop_calls=None,
                 p.events = events
                 p.event_args = env.get('__args__', {})
                 p.field_stores = env.get('__fa__', {})
+                p.env = env
+                p.body = body
                 p.kind = 'diverge'
                 p.outcome = 'diverge:' + short(callee_name(t))
                 out.append(p)
